@@ -111,9 +111,11 @@ func newResult(t reflect.Type, opts resultOptions) (result, error) {
 				"cannot use soft with result value groups: soft was used with group:%q", g.Name), nil)
 		}
 		if g.Flatten {
-			if t.Kind() != reflect.Slice {
+			// rg.Type is no longer t if dig.As replaced it by an interface
+			// (possible when t is a named slice type with methods).
+			if rg.Type.Kind() != reflect.Slice {
 				return nil, newErrInvalidInput(fmt.Sprintf(
-					"flatten can be applied to slices only: %v is not a slice", t), nil)
+					"flatten can be applied to slices only: %v is not a slice", rg.Type), nil)
 			}
 			rg.Type = rg.Type.Elem()
 		}
